@@ -542,7 +542,8 @@ def unit_tokenizer_init_read(sess, ctx):
             eng.prove("C14:read:after-a-stop-returns-end-of-stream-without-touching-the-reader", res is None and gh["rreads"] == 0,
                       props=P14 + P13 + ("C08",))
         else:
-            eng.prove("C12:read:is-the-wrapped-reader's-block", gh["rreads"] == 1 and (res is blk if rk == 0 else res is None), props=P1214 + P13)
+            eng.prove("C12:read:is-the-wrapped-reader's-block", gh["rreads"] == 1 and (res is blk if rk == 0 else res is None),
+                      props=P1214 + P13 + ("C15", "C08"))
         return None
     sess.run_unit(u, eng, run_)
     return u
